@@ -523,22 +523,38 @@ Proof.
 Qed.
 
 (* ------------------------------------------------------------------ what parse_request hands on *)
-Theorem flag_sound_partial cx ep rq now jdb jdb' X :
-  r_authflag rq = false ->
+Theorem flag_sound cx ep rq now jdb jdb' X :
   parse_request cx ep rq now jdb = (Ok (PGeneric (Some X) true), jdb') ->
   exists ai, client_authentication cx ep rq now jdb = (Ok (Some ai), jdb')
     /\ ai_client ai = Some X /\ authenticating (ai_method ai) = true.
 Proof.
-  intros Hf. unfold parse_request.
+  unfold parse_request.
   destruct (client_authentication cx ep rq now jdb) as [r j1] eqn:E.
   destruct (ep_userinfo ep).
   - destruct r as [[ai|]|e|]; try discriminate.
     + destruct (ai_token ai); discriminate.
     + destruct (is_cae e); discriminate.
   - destruct r as [[ai|]|e|]; try discriminate.
-    + destruct (ai_client ai) as [[|x c]|] eqn:Ec; rewrite Hf; cbn [orb]; intro H; inversion H; subst; try discriminate.
-      exists ai. auto.
-    + rewrite Hf. discriminate.
+    destruct (ai_client ai) as [[|x c]|] eqn:Ec; intro H; inversion H; subst; try discriminate.
+    exists ai. auto.
+Qed.
+
+(* the audience clause holds for every JWT-based method except request_param *)
+Theorem audience_partial cx ep rq now jdb jdb' ai X j :
+  client_authentication cx ep rq now jdb = (Ok (Some ai), jdb') ->
+  ai_client ai = Some X ->
+  used_jwt rq (ai_method ai) = Some j ->
+  ai_method ai <> MRequestParam ->
+  aud_ok ep j.
+Proof.
+  intros H HX Hu Hn.
+  assert (authenticating (ai_method ai) = true) as Hau.
+  { unfold used_jwt in Hu. destruct (ai_method ai); try discriminate; reflexivity. }
+  destruct (sound _ _ _ _ _ _ _ _ H HX Hau) as [_ [_ Hc]].
+  unfold used_jwt in Hu.
+  inversion Hc; subst; rewrite <- H0 in *; try discriminate; try congruence.
+  - rewrite H1 in Hu. inversion Hu; subst. assumption.
+  - rewrite H1 in Hu. inversion Hu; subst. assumption.
 Qed.
 
 Lemma verify_method_token cx ep rq now jdb m ai jdb' t :
